@@ -70,6 +70,9 @@ def leafOut (g : List Nat × List Phrase) : List Phrase := sortLeaf g.2
       order; nothing for a key never inserted;
     * a fuzzy prefix lookup returns, leaf by leaf, exactly the inserted keys of the same length whose
       every syllable begins with the corresponding partial syllable, each once;
+    * the other lookup methods of the trait agree with it: `lookup_first_n_phrases` returns a prefix of
+      the full result that is all of it or longer than `n` (whole leaves), `lookup_first_phrase` its
+      first element;
     * enumeration yields exactly the inserted set, each (key, phrase) once;
     * the bytes conform to the documented format.
     (`deterministic` — equal input, identical bytes — is the functionality of `write`.) -/
@@ -85,6 +88,10 @@ def C11_full : Prop :=
         (∀ k, ValidKey k → inserted es k = none → lookupAll t k .standard = []) ∧
         (∀ q, ValidKey q → ∃ groups, GroupsOf es (fun k => fuzzyMatch k q = true) groups ∧
           lookupAll t q .fuzzyPartialPrefix = groups.flatMap leafOut) ∧
+        (∀ st k n, ValidKey k →
+          (∃ rest, lookupAll t k st = lookupFirstN t k n st ++ rest) ∧
+          (lookupFirstN t k n st = lookupAll t k st ∨ n < (lookupFirstN t k n st).length)) ∧
+        (∀ st k, ValidKey k → lookupFirst t k st = (lookupAll t k st).head?) ∧
         (∃ groups, GroupsOf es (fun _ => True) groups ∧
           entries t = .ok (groups.flatMap fun g => (leafOut g).map fun p => (g.1, p))) ∧
         Conforms bytes
@@ -387,6 +394,49 @@ theorem conforms (info : Info) (es : List Entry) (hv : ValidInput info es) (byte
   have hi : ValidInfo (TrieCodec.Builder.ofEntries info es).info := by rw [info_ofEntries]; exact hv.1
   exact write_conforms _ (WF_ofEntries info es hv.2) hi bytes hw
 
+/-- **independent writer**: every conforming file — whoever wrote it — opens, and denotes the map
+    `findNode · (l, sub)` of the tree whose BFS layout its index is; the reader returns exactly this
+    map: metadata, exact lookups (nothing for other keys), fuzzy lookups as the walk over that tree,
+    `entries()` each (key, phrase) once.  (`conforms` says `TrieBuilder::write` is one such writer;
+    the harness feeds the real `Trie` the files of a second one, the model's writer.) -/
+theorem reader_on_conforming_file (bytes : Bytes) (hc : Conforms bytes) :
+    ∃ (info : Info) (l : Option (List Phrase)) (sub : Forest) (t : Trie),
+      openTrie bytes = some t ∧ about t = info ∧
+      (∀ st k, ValidKey k → lookupAll t k st = tLookup st k (.node 0 l sub)) ∧
+      (∀ k, ValidKey k → lookupAll t k .standard = sortLeaf ((findNode k (l, sub)).getD [])) ∧
+      (∀ k n, ValidKey k → lookupFirstN t k n .standard = lookupAll t k .standard) ∧
+      ∃ groups : List (List Nat × List Phrase),
+        (groups.map (·.1)).Nodup ∧ (∀ k ps, (k, ps) ∈ groups ↔ findNode k (l, sub) = some ps) ∧
+        entries t = .ok (groups.flatMap fun g => (leafOut g).map fun p => (g.1, p)) := by
+  obtain ⟨info, recs, phrases, l, sub, hbytes, hlen, hi, _, _, hpre, hcount, hlaid⟩ := hc
+  have hbody := tlv_content_le tagSequence (docBody info (recs.flatMap recBytes) (encPhrases phrases))
+  have hbl : (docBody info (recs.flatMap recBytes) (encPhrases phrases)).length ≤ maxLen := by
+    rw [hbytes] at hlen; unfold encSeq at hlen; omega
+  have hopen : openTrie bytes = some { info := info, index := recs.flatMap recBytes, data := encPhrases phrases } := by
+    rw [hbytes]
+    unfold openTrie
+    rw [if_neg (by rw [hbytes] at hlen; omega)]
+    have := decSeq_encSeq decBody _ [] _ (decBody_docBody info _ (encPhrases phrases) hi hbl) hbl
+    simp only [List.append_nil] at this
+    rw [this]
+  have hall : ∀ st k, ValidKey k →
+      lookupAll { info := info, index := recs.flatMap recBytes, data := encPhrases phrases } k st =
+        tLookup st k (.node 0 l sub) :=
+    fun st k hk => lookupAll_eq_tLookup hlaid hpre ⟨_, _, rfl⟩ st k hk
+  refine ⟨info, l, sub, _, hopen, rfl, hall, ?_, ?_, ?_⟩
+  · intro k hk
+    rw [hall .standard k hk, tLookup_standard k hk 0 l sub hpre.2.2]
+    cases findNode k (l, sub) <;> rfl
+  · intro k n hk
+    rw [lookupFirstN_eq_cutoff hlaid hpre ⟨_, _, rfl⟩ .standard k hk n, hall .standard k hk, tLookup,
+      List.flatMap_def]
+    exact cutoff_le_one n (by rw [List.length_map]; exact tWalk_standard_le_one k hk 0 l sub hpre.2.2)
+  · obtain ⟨groups, hperm, hent⟩ := entries_laid (info := info) hlaid hpre hcount
+    refine ⟨groups, ?_, ?_, hent⟩
+    · exact (hperm.map (·.1)).nodup_iff.mpr (nodeGroups_keys_nodup hpre.2.2)
+    · intro k ps
+      rw [hperm.mem_iff, mem_nodeGroups hpre.2.2]
+
 /-- the ASN.1 module, the constants of trie.rs and the model agree (magic, version, field lists,
     record size, value ranges) -/
 theorem format_constants : FormatConstantsAgree := format_constants_agree
@@ -406,13 +456,19 @@ theorem C11 : C11_full := by
   obtain ⟨t1, ho1, hl⟩ := lookup_correct info es hv bytes hw
   obtain ⟨t2, ho2, hf⟩ := fuzzy_correct info es hv bytes hw
   obtain ⟨t3, ho3, he⟩ := entries_correct info es hv bytes hw
+  obtain ⟨t4, ho4, hn⟩ := first_n_whole_leaves info es hv bytes hw
+  obtain ⟨t5, ho5, hfp, _⟩ := first_phrase_correct info es hv bytes hw
+  have e4 : t4 = t := Option.some.inj (ho4.symm.trans hopen)
+  have e5 : t5 = t := Option.some.inj (ho5.symm.trans hopen)
+  rw [e4] at hn
+  rw [e5] at hfp
   have e1 : t1 = t := Option.some.inj (ho1.symm.trans hopen)
   have e2 : t2 = t := Option.some.inj (ho2.symm.trans hopen)
   have e3 : t3 = t := Option.some.inj (ho3.symm.trans hopen)
   rw [e1] at hl
   rw [e2] at hf
   rw [e3] at he
-  refine ⟨t, hopen, by rw [habout, info_ofEntries], ?_, ?_, hf, he, conforms info es hv bytes hw⟩
+  refine ⟨t, hopen, by rw [habout, info_ofEntries], ?_, ?_, hf, hn, hfp, he, conforms info es hv bytes hw⟩
   · intro k hk
     refine ⟨hl k hk, ?_⟩
     rw [hl k hk]
@@ -440,5 +496,34 @@ example : ValidKey [10268, 8708] := by unfold ValidKey; decide
 
 example : inserted sampleEntries [10268] = some [{ text := [28204], freq := 9 }, { text := [20874], freq := 70000 }] := by
   decide
+
+/-- the sample file read back by the model's reader -/
+def sampleTrie : Option Trie := ((TrieCodec.Builder.ofEntries {} sampleEntries).write).bind openTrie
+
+-- exact lookup: the re-inserted 測 (freq 9) kept its place before 冊; single characters in insertion order
+example : (sampleTrie.map fun t => lookupAll t [10268] .standard) =
+    some [{ text := [28204], freq := 9 }, { text := [20874], freq := 70000 }] := by decide
+
+-- a key never inserted, and a key that is only a prefix of the query
+example : (sampleTrie.map fun t => lookupAll t [8708] .standard) = some [] := by decide
+example : (sampleTrie.map fun t => lookupAll t [10268, 8708, 8708] .standard) = some [] := by decide
+
+-- fuzzy prefix lookup: ㄘ + ㄕ matches ㄘㄜˋ ㄕˋ; the hypothesis of `fuzzy_correct` is met non-trivially
+example : fuzzyMatch [10268, 8708] [10240, 8704] = true := by decide
+example : (sampleTrie.map fun t => lookupAll t [10240, 8704] .fuzzyPartialPrefix) =
+    some [{ text := [28204, 35430], freq := 100, lastUsed := some 5 }] := by decide
+
+-- `lookup_first_n_phrases(…, 0, …)` and `(…, 1, …)` return the whole two-phrase leaf (more than n);
+-- `lookup_first_phrase` its head
+example : (sampleTrie.map fun t => (lookupFirstN t [10268] 0 .standard).length) = some 2 := by decide
+example : (sampleTrie.map fun t => lookupFirst t [10268] .standard) = some (some { text := [28204], freq := 9 }) := by decide
+
+-- enumeration: three (key, phrase) pairs (the iterator pops each round's results: deepest first)
+example : (sampleTrie.map fun t => (entries t).map fun es => es.map (·.1)) =
+    some (.ok [[10268, 8708], [10268], [10268]]) := by decide
+
+-- the order clause on a leaf mixing both kinds: the single character first, then by descending frequency
+example : sortLeaf [{ text := [1, 2], freq := 5 }, { text := [3], freq := 1 }, { text := [4, 5], freq := 7 }] =
+    [{ text := [3], freq := 1 }, { text := [4, 5], freq := 7 }, { text := [1, 2], freq := 5 }] := by decide
 
 end Chewing.C11
